@@ -429,4 +429,148 @@ theorem arun_recheck_phase : ∀ (ops : List AOp) (a : AState) (kept rem : List 
         · obtain ⟨k2, r2, f2, g1, g2, g3, g4⟩ := ih (adeliver a) _ rem firsts h' hc'
           exact ⟨k2, r2, f2, g1, by simp [countDeliver]; omega, g3.trans hrv.1, g4.trans hrv.2⟩
 
+/-! ### RemoveTxByKey / Flush under the discipline -/
+
+theorem erase_append_mem_left (k : Bytes) (kept rem : List Bytes) (h : k ∈ kept) :
+    (kept ++ rem).erase k = kept.erase k ++ rem := List.erase_append_left _ h
+
+theorem arecheck_remove {a : AState} {kept rem : List Bytes} {firsts : List Req}
+    (h : ARecheck a kept rem firsts) (tx : Bytes) (hal : ∀ r ∈ a.queue, r.isRecheckOf tx = false) :
+    ∃ kept', ARecheck (aremoveByKey a tx) kept' rem firsts ∧ (∀ k ∈ kept', k ∈ kept) := by
+  have hnr : tx ∉ rem := by
+    intro hm
+    have : Req.recheck tx ∈ a.queue := by
+      rw [h.queue]; exact List.mem_append_left _ (List.mem_map_of_mem (f := Req.recheck) hm)
+    have := hal _ this
+    simp [Req.isRecheckOf] at this
+  unfold aremoveByKey
+  split
+  · rename_i hm
+    have hk : tx ∈ keys a.s := (mem_map_iff h.inv tx).1 hm
+    have hkept : tx ∈ kept := by
+      rw [h.keys] at hk
+      rcases List.mem_append.1 hk with hk | hk
+      · exact hk
+      · exact absurd hk hnr
+    refine ⟨kept.erase tx, ⟨inv_removeTx h.inv tx false hk, ?_, ?_, h.queue, h.firsts, h.cursor, h.endTx, h.ok⟩,
+      fun k hk' => List.mem_of_mem_erase hk'⟩
+    · show keys (removeTx a.s tx false) = kept.erase tx ++ rem
+      rw [keys_removeTx, h.keys]; exact erase_append_mem_left tx kept rem hkept
+    · intro k hk'; exact h.kept k (List.mem_of_mem_erase hk')
+  · exact ⟨kept, h, fun _ hk => hk⟩
+
+theorem aidle_remove {a : AState} (h : AIdle a) (tx : Bytes) : AIdle (aremoveByKey a tx) := by
+  unfold aremoveByKey
+  split
+  · rename_i hm
+    exact ⟨inv_removeTx h.inv tx false ((mem_map_iff h.inv tx).1 hm), h.cursor, h.queue, h.ok⟩
+  · exact h
+
+theorem aidle_flush {a : AState} (h : AIdle a) : AIdle (aflush a) :=
+  ⟨inv_flush a.s, h.cursor, h.queue, h.ok⟩
+
+theorem rem_nil_of_flush_allowed {a : AState} {kept rem : List Bytes} {firsts : List Req}
+    (h : ARecheck a kept rem firsts) (hal : Allowed a .flush) : rem = [] := by
+  cases rem with
+  | nil => rfl
+  | cons c r =>
+    have : Req.recheck c ∈ a.queue := by rw [h.queue]; simp
+    exact (hal _ this).elim
+
+theorem aphase_stepG {a : AState} (h : APhase a) (op : AOpG) (hal : Allowed a op) :
+    APhase (astepG a op) := by
+  cases op with
+  | send tx v => exact aphase_send h tx v
+  | deliver => exact aphase_deliver h
+  | update ht b pre post rv =>
+    rcases aupdate_phase h ht b pre post rv with h' | h'
+    · exact Or.inl h'
+    · exact Or.inr ⟨_, _, _, h'⟩
+  | removeByKey tx =>
+    rcases h with h | ⟨kept, rem, firsts, h⟩
+    · exact Or.inl (aidle_remove h tx)
+    · obtain ⟨k', h', _⟩ := arecheck_remove h tx hal
+      exact Or.inr ⟨k', rem, firsts, h'⟩
+  | flush =>
+    rcases h with h | ⟨kept, rem, firsts, h⟩
+    · exact Or.inl (aidle_flush h)
+    · have := rem_nil_of_flush_allowed h hal
+      subst this
+      exact Or.inl (aidle_flush (aidle_of_recheck_done h))
+
+theorem aphase_runG (ops : List AOpG) : ∀ {a : AState}, APhase a → Disciplined a ops →
+    APhase (arunG a ops) := by
+  induction ops with
+  | nil => intro a h _; exact h
+  | cons o r ih => intro a h hd; exact ih (aphase_stepG h o hd.1) hd.2
+
+def AOpG.isUpdate : AOpG → Bool
+  | .update _ _ _ _ _ => true
+  | _ => false
+
+def countDeliverG : List AOpG → Nat
+  | [] => 0
+  | .deliver :: r => countDeliverG r + 1
+  | _ :: r => countDeliverG r
+
+/-- the recheck phase under the discipline: sends, answers, allowed removals (and an allowed flush,
+which can only come when nothing is pending) -/
+theorem arunG_recheck_phase : ∀ (ops : List AOpG) (a : AState) (kept rem : List Bytes) (firsts : List Req),
+    ARecheck a kept rem firsts → Disciplined a ops → (∀ o ∈ ops, o.isUpdate = false) →
+    countDeliverG ops ≤ rem.length →
+    ∃ kept' rem' firsts', ARecheck (arunG a ops) kept' rem' firsts' ∧
+      rem'.length + countDeliverG ops = rem.length ∧ (arunG a ops).rv = a.rv ∧
+      (arunG a ops).s.post = a.s.post := by
+  intro ops
+  induction ops with
+  | nil => intro a kept rem firsts h _ _ _; exact ⟨kept, rem, firsts, h, by simp [countDeliverG], rfl, rfl⟩
+  | cons o r ih =>
+    intro a kept rem firsts h hd hnu hc
+    have hnu' : ∀ o' ∈ r, o'.isUpdate = false := fun o' ho' => hnu o' (List.mem_cons_of_mem _ ho')
+    cases o with
+    | send tx v =>
+      obtain ⟨f', h'⟩ := arecheck_send h tx v
+      obtain ⟨_, _, _, h4, _, _, h7, _, _⟩ := asend_spec a tx v
+      obtain ⟨k2, r2, f2, g1, g2, g3, g4⟩ := ih (asend a tx v).1 kept rem f' h' hd.2 hnu'
+        (by simpa [countDeliverG] using hc)
+      exact ⟨k2, r2, f2, g1, by simpa [countDeliverG] using g2, g3.trans h7, g4.trans h4⟩
+    | deliver =>
+      cases rem with
+      | nil => simp [countDeliverG] at hc
+      | cons c rem =>
+        have hrv : (adeliver a).rv = a.rv ∧ (adeliver a).s.post = a.s.post := by
+          have hq : a.queue = Req.recheck c :: (rem.map Req.recheck ++ firsts) := by rw [h.queue]; rfl
+          have hcur : a.cursor = some c := by rw [h.cursor]; rfl
+          unfold adeliver
+          rw [hq]
+          simp only [hcur]
+          unfold resCbRecheckA
+          split <;> (try simp only) <;> (try split) <;>
+            first | exact ⟨rfl, rfl⟩ | (refine ⟨?_, ?_⟩ <;> first | rfl | trivial | simp [removeTx])
+        have hc' : countDeliverG r ≤ rem.length := by simp [countDeliverG] at hc; omega
+        rcases arecheck_deliver_recheck c h with ⟨_, h'⟩ | ⟨_, h'⟩
+        · obtain ⟨k2, r2, f2, g1, g2, g3, g4⟩ := ih (adeliver a) _ rem firsts h' hd.2 hnu' hc'
+          exact ⟨k2, r2, f2, g1, by simp [countDeliverG]; omega, g3.trans hrv.1, g4.trans hrv.2⟩
+        · obtain ⟨k2, r2, f2, g1, g2, g3, g4⟩ := ih (adeliver a) _ rem firsts h' hd.2 hnu' hc'
+          exact ⟨k2, r2, f2, g1, by simp [countDeliverG]; omega, g3.trans hrv.1, g4.trans hrv.2⟩
+    | update ht b pre post rv =>
+      have := hnu (.update ht b pre post rv) List.mem_cons_self
+      simp [AOpG.isUpdate] at this
+    | removeByKey tx =>
+      obtain ⟨k', h', _⟩ := arecheck_remove h tx hd.1
+      have hsame : (aremoveByKey a tx).rv = a.rv ∧ (aremoveByKey a tx).s.post = a.s.post := by
+        unfold aremoveByKey; split <;> exact ⟨rfl, rfl⟩
+      obtain ⟨k2, r2, f2, g1, g2, g3, g4⟩ := ih (aremoveByKey a tx) k' rem firsts h' hd.2 hnu'
+        (by simpa [countDeliverG] using hc)
+      exact ⟨k2, r2, f2, g1, by simpa [countDeliverG] using g2, g3.trans hsame.1, g4.trans hsame.2⟩
+    | flush =>
+      have hrem := rem_nil_of_flush_allowed h hd.1
+      subst hrem
+      have h' : ARecheck (aflush a) [] [] firsts :=
+        ⟨inv_flush a.s, by simp [aflush, keys, flush], fun _ hk => (by cases hk), h.queue, h.firsts,
+          h.cursor, fun hr => absurd rfl hr, h.ok⟩
+      obtain ⟨k2, r2, f2, g1, g2, g3, g4⟩ := ih (aflush a) [] [] firsts h' hd.2 hnu'
+        (by simpa [countDeliverG] using hc)
+      exact ⟨k2, r2, f2, g1, by simpa [countDeliverG] using g2, g3, g4⟩
+
 end Tmv.Mempool.V0
